@@ -133,6 +133,16 @@ def run(ctx):
             elif arm is not None:
                 ctx.require(out == ("ret", "match_") and bool(consult_i), "R03.2", "decided-returned", "a decided match is returned unchanged", loc,
                             fail="a verdict is returned that does not come from consulting an ancestor's patterns")
+            else:
+                # a node was found but the iteration ends without the match_ dispatch: only continuing upwards is acceptable
+                par = [e for e in ev if e[0] == "iflet" and e[1].startswith("Path::parent(") and "key(trie_node)" in e[1]]
+                up = [e for e in ev if e[0] == "assign" and e[1] == "search_path"]
+                okk = (p.out in ("val", "cont") and bool(up)) or (out == ("ret", "None") and bool(par) and not par[0][3])
+                ctx.require(okk, "R03.2", "skipped-node-walks-up:%s" % key,
+                            "a node that is not consulted (not an ancestor) does not end the search: it continues with the node key's parent", loc,
+                            detail=pathx.show_events(ev)[-300:],
+                            fail="match_path gives up (%s %s) at a trie node that is only a string-prefix sibling instead of continuing with its parent: "
+                                 "the real ancestors' ignore files (and global/explicit ones at the root) are never consulted for that path" % (p.out, p.val))
         ctx.floor("R03.1", "iteration paths consulting a node", n_consult, 4)
         ctx.floor("R03.2", "feasible iteration paths", n_paths, 8)
     except Skip:
